@@ -73,17 +73,19 @@ def run(ctx):
     open(cfgk, "w").write(open(os.path.join(vf.SPEC, "MC_Bracket.cfg")).read().replace("N = 10 GL = 3", "N = 10 GL = 3" if ctx.quick() else "N = 13 GL = 4"))
     ctx.mc("MC_Bracket", cfgk, timeout=2400, workers=8,
            need_actions=("NEvalA", "NEvalB", "NEvalC", "NInsideLow", "NInsideHigh", "NInsideUndecided", "NGolden", "NOutsideShift", "NOutsideMore", "NExtra", "NExit"))
-    btrace = os.path.join(ctx.work, "bracket.ndjson")
-    rc, o, err = vf.run_exe([exe, "bracket", str(ctx.seed), ctx.tier, btrace], timeout=1500)
-    bd = [l for l in err.splitlines() if l.startswith("VERIF-DIED")]
-    if bd or rc != 0:
-        ctx.drift("bracketing phase: the recorder ended early (%s)" % (bd[0][:200] if bd else err[-200:]))
-    else:
+    for mode, module, marker, label in (("bracket", "Trace_Bracket", '"BStart"', "bracketing phase (hook Verif_Bracket)"),
+                                        ("findmin", "Trace_FindMin", '"MStart"', "Find_Minimum/Find_Maximum, whole executions")):
+        btrace = os.path.join(ctx.work, mode + ".ndjson")
+        rc, o, err = vf.run_exe([exe, mode, str(ctx.seed), ctx.tier, btrace], timeout=1500)
+        bd = [l for l in err.splitlines() if l.startswith("VERIF-DIED")]
+        if bd or rc != 0:
+            ctx.drift("%s: the recorder ended early (%s)" % (label, bd[0][:200] if bd else err[-200:]))
+            continue
         bl = [l for l in open(btrace).read().splitlines() if l.strip()]
         # one TLC run over all executions; on rejection, report the execution and go on with the rest (at most 5 reports)
         groups, cur = [], []
         for l in bl:
-            if '"BStart"' in l and cur:
+            if marker in l and cur:
                 groups.append(cur)
                 cur = []
             cur.append(l)
@@ -91,9 +93,9 @@ def run(ctx):
             groups.append(cur)
         nrej, start = 0, 0
         while start < len(groups) and nrej < 5:
-            part = os.path.join(ctx.work, "bracket-%d.ndjson" % nrej)
+            part = os.path.join(ctx.work, "%s-%d.ndjson" % (mode, nrej))
             open(part, "w").write("\n".join(l for g in groups[start:] for l in g) + "\n")
-            ok, consumed, total = ctx.validate("Trace_Bracket", part)
+            ok, consumed, total = ctx.validate(module, part)
             if ok:
                 break
             pos, gi = 0, start
@@ -102,13 +104,14 @@ def run(ctx):
                     break
                 pos += len(groups[gi])
             g = groups[gi]
-            ctx.drift("bracketing phase: execution %d (%s) is not a behaviour of spec/Bracket.tla: rejected at its event %d of %d: %s; evaluations so far %s" % (
-                gi, g[0][:60], consumed - pos + 1, len(g), g[min(consumed - pos, len(g) - 1)][:120], " ".join(x[x.find('"f"'):].strip("{}") for x in g[1:min(consumed - pos + 1, 12)])))
+            ctx.drift("%s: execution %d (%s) is not a behaviour of spec/%s.tla: rejected at its event %d of %d: %s; evaluations so far %s" % (
+                label, gi, g[0][:70], module, consumed - pos + 1, len(g), g[min(consumed - pos, len(g) - 1)][:120],
+                " ".join(x[x.find('"f"'):].strip("{}") for x in g[1:min(consumed - pos + 1, 14)])))
             nrej += 1
             start = gi + 1
         ctx.cov["traces_validated_against_impl"] += len(groups) - nrej
         ctx.cov["trace_events"] += len(bl)
-        ctx.notes.append("bracketing phase: %d recorded executions (%d evaluations) validated against spec/Bracket.tla, %d rejected" % (len(groups), sum(1 for l in bl if '"BEval"' in l), nrej))
+        ctx.notes.append("%s: %d recorded executions (%d evaluations) validated against spec/%s.tla, %d rejected" % (label, len(groups), sum(1 for l in bl if '"BEval"' in l), module, nrej))
     if not ctx.violations:
         import re as _re
         e = {"TRACE": trace}
